@@ -247,6 +247,12 @@ def correspond(ctx):
             for shape in ("array", "jwkset"):
                 karg = ks if shape == "array" else {"keys": ks}
                 ksets.append(("jweenc\t%s\t%s\t%s\t%s" % (J({"protected": {"enc": "A128GCM"}}), "-" if rcp is None else J(rcp), J(karg), b"key set".hex()), fam, ks, tk))
+        if fam in ("A128KW", "A256GCMKW", "ECDH-ES+A128KW"):
+            # the algorithm named once in the protected / shared unprotected header: no per-recipient header exists
+            # when the object is migrated from the flattened to the general form
+            for tk, tm in (("alg in protected", {"protected": {"alg": fam, "enc": "A128GCM"}}), ("alg in shared unprotected", {"protected": {"enc": "A128GCM"}, "unprotected": {"alg": fam}})):
+                ks2 = [{m: v for m, v in k.items() if m != "alg"} for k in ks]
+                ksets.append(("jweenc\t%s\t-\t%s\t%s" % (J(tm), J(ks2), b"key set".hex()), fam, ks2, tk))
     for (c, fam, ks, tk), o in zip(ksets, G.harness(bdir, [k[0] for k in ksets])):
         if o == "ERR" or o.startswith("CRASH"):
             rep.violation("keyset-enc-failed:%s:%s" % (fam, tk), "jose_jwe_enc to a key set (%s, template %s) failed: %s" % (fam, tk, o[:60]), {"case": c})
